@@ -59,6 +59,8 @@ class Contract:
         # {callee key: {ghost parameter of the callee: clause expression over this function's parameters / ghosts}}: instantiates the
         # callee's universally quantified ghost parameters at modular calls (default: the postcondition is assumed for all values)
         self.ghost_args = dict(kw.pop("ghost_args", {}))
+        # {local variable: TMap(...)}: a local `x = dict()` / `x = {}` is modelled as a heap map of that type
+        self.local_types = dict(kw.pop("local_types", {}))
         if kw:
             raise TypeError("unknown contract options %r for %s" % (list(kw), key))
         self._clauses = {}
